@@ -409,17 +409,16 @@ theorem invX_weaken (s : St) (hI : Inv s) (x : Sub) (hx : x ∈ s.rtmpSubs) : In
    by intro id h; have : id = x.id := by simpa using h
       subst this; exact hI.used x hx⟩
 
-theorem rtmpOne_inv (key : Bool) (s : St) (id : Nat) (hI : Inv s) :
-    Inv (rtmpOne key s id) ∧ Frame s (rtmpOne key s id) := by
-  unfold rtmpOne
-  cases hg : s.getRtmp id with
-  | none => exact ⟨hI, Frame.refl s⟩
-  | some sub =>
-    obtain ⟨hx, hsid⟩ := getRtmp_mem hg
-    subst hsid
-    simp only
-    -- step A
-    have hA : ∃ s1, s1 = (if sub.fresh then
+/-- the stored record of subscriber `id` after a step, for the next step of the same iteration -/
+structure Stored (s : St) (id : Nat) (x : Sub) : Prop where
+  get : s.getRtmp id = some x
+  mem : x ∈ s.rtmpSubs
+  id_ : x.id = id
+  notFresh : x.fresh = false
+
+/-- step A of `rtmpOne`: a fresh subscriber is sent the cached headers and GOPs -/
+theorem rtmpOne_stepA (s : St) (sub : Sub) (hI : Inv s) (hg : s.getRtmp sub.id = some sub) :
+    let s1 := (if sub.fresh then
           ((if s.cfg.mergeSize > 0 then (s.writeAll .rtmp sub.id (prologue s.rtmpGop)).mergeFlush
             else s.writeAll .rtmp sub.id (prologue s.rtmpGop)).modRtmp sub.id fun x =>
             { x with fresh := false,
@@ -427,100 +426,182 @@ theorem rtmpOne_inv (key : Bool) (s : St) (id : Nat) (hI : Inv s) :
                      pro := prologue s.rtmpGop,
                      start := if (if GopCache.gopCount s.rtmpGop > 0 then false else sub.waitKey) then none
                               else some s.pubLog.length })
-        else s) ∧ Inv s1 ∧ Frame s s1 ∧ ∃ sub1, s1.getRtmp sub.id = some sub1 ∧ sub1.fresh = false ∧ sub1 ∈ s1.rtmpSubs ∧ sub1.id = sub.id := by
-      refine ⟨_, rfl, ?_⟩
-      by_cases hf : sub.fresh = true
-      · simp only [hf, if_true]
-        have hIA := write_inv s hI sub hx (prologue s.rtmpGop)
-        have hrb : (s.writeAll .rtmp sub.id (prologue s.rtmpGop)).rb sub.id = (prologue s.rtmpGop).flatten := by
-          show (s.writeAll .rtmp sub.id (prologue s.rtmpGop)).bytes .rtmp sub.id = _
-          rw [bytes_writeAll]
-          have := ((hI.subs sub hx (by simp)).fresh_ hf).1
-          simp [St.rb] at this
-          simp [this]
-        have hset := settle (s.writeAll .rtmp sub.id (prologue s.rtmpGop)) sub hIA hx (Or.inl hf) _ hrb
-          (if GopCache.gopCount s.rtmpGop > 0 then false else sub.waitKey)
-        refine ⟨hset, ?_, ?_⟩
-        · have f1 := frame_write s sub.id (prologue s.rtmpGop)
-          have f2 : Frame (s.writeAll .rtmp sub.id (prologue s.rtmpGop))
-              (if s.cfg.mergeSize > 0 then (s.writeAll .rtmp sub.id (prologue s.rtmpGop)).mergeFlush
-               else s.writeAll .rtmp sub.id (prologue s.rtmpGop)) := by
-            split
-            · exact frame_flush _ hIA
-            · exact Frame.refl _
-          exact Frame.trans f1 (Frame.trans f2 (frame_mod _ _ _ (fun _ => rfl)))
-        · -- the stored subscriber is now not fresh
-          have hxB : sub ∈ (if s.cfg.mergeSize > 0 then (s.writeAll .rtmp sub.id (prologue s.rtmpGop)).mergeFlush
-              else s.writeAll .rtmp sub.id (prologue s.rtmpGop)).rtmpSubs := by
-            split
-            · rw [(flush_effect _ hIA).1.rtmpSubs]; exact hx
-            · exact hx
-          have hndB : ((if s.cfg.mergeSize > 0 then (s.writeAll .rtmp sub.id (prologue s.rtmpGop)).mergeFlush
-              else s.writeAll .rtmp sub.id (prologue s.rtmpGop)).rtmpSubs.map (·.id)).Nodup := by
-            split
-            · rw [(flush_effect _ hIA).1.rtmpSubs]; exact hI.nodup
-            · exact hI.nodup
-          have hget := getRtmp_modRtmp _ hndB sub hxB (fun x =>
+        else s)
+    Inv s1 ∧ Frame s s1 ∧ ∃ sub1, Stored s1 sub.id sub1 := by
+  intro s1
+  obtain ⟨hx, _⟩ := getRtmp_mem hg
+  by_cases hf : sub.fresh = true
+  · have es1 : s1 = ((if s.cfg.mergeSize > 0 then (s.writeAll .rtmp sub.id (prologue s.rtmpGop)).mergeFlush
+            else s.writeAll .rtmp sub.id (prologue s.rtmpGop)).modRtmp sub.id fun x =>
             { x with fresh := false,
                      waitKey := if GopCache.gopCount s.rtmpGop > 0 then false else sub.waitKey,
                      pro := prologue s.rtmpGop,
                      start := if (if GopCache.gopCount s.rtmpGop > 0 then false else sub.waitKey) then none
-                              else some s.pubLog.length }) (fun _ => rfl)
-          exact ⟨_, hget, rfl, (getRtmp_mem hget).1, rfl⟩
-      · have hf' : sub.fresh = false := by simpa using hf
-        simp only [hf', Bool.false_eq_true, if_false]
-        exact ⟨hI, Frame.refl s, sub, hg, hf', hx, rfl⟩
-    obtain ⟨s1, hs1, hI1, hF1, sub1, hg1, hfr1, hx1, hid1⟩ := hA
-    rw [← hs1, hg1]
+                              else some s.pubLog.length }) := by
+      simp only [s1, hf, if_true]
+    rw [es1]
+    have hIA := write_inv s hI sub hx (prologue s.rtmpGop)
+    have hrb : (s.writeAll .rtmp sub.id (prologue s.rtmpGop)).rb sub.id = (prologue s.rtmpGop).flatten := by
+      show (s.writeAll .rtmp sub.id (prologue s.rtmpGop)).bytes .rtmp sub.id = _
+      rw [bytes_writeAll]
+      have := ((hI.subs sub hx (by simp)).fresh_ hf).1
+      simp [St.rb] at this
+      simp [this]
+    have hset := settle (s.writeAll .rtmp sub.id (prologue s.rtmpGop)) sub hIA hx (Or.inl hf) _ hrb
+      (if GopCache.gopCount s.rtmpGop > 0 then false else sub.waitKey)
+    refine ⟨hset, ?_, ?_⟩
+    · have f1 := frame_write s sub.id (prologue s.rtmpGop)
+      have f2 : Frame (s.writeAll .rtmp sub.id (prologue s.rtmpGop))
+          (if s.cfg.mergeSize > 0 then (s.writeAll .rtmp sub.id (prologue s.rtmpGop)).mergeFlush
+           else s.writeAll .rtmp sub.id (prologue s.rtmpGop)) := by
+        split
+        · exact frame_flush _ hIA
+        · exact Frame.refl _
+      exact Frame.trans f1 (Frame.trans f2 (frame_mod _ _ _ (fun _ => rfl)))
+    · have hxB : sub ∈ (if s.cfg.mergeSize > 0 then (s.writeAll .rtmp sub.id (prologue s.rtmpGop)).mergeFlush
+          else s.writeAll .rtmp sub.id (prologue s.rtmpGop)).rtmpSubs := by
+        split
+        · rw [(flush_effect _ hIA).1.rtmpSubs]; exact hx
+        · exact hx
+      have hndB : ((if s.cfg.mergeSize > 0 then (s.writeAll .rtmp sub.id (prologue s.rtmpGop)).mergeFlush
+          else s.writeAll .rtmp sub.id (prologue s.rtmpGop)).rtmpSubs.map (·.id)).Nodup := by
+        split
+        · rw [(flush_effect _ hIA).1.rtmpSubs]; exact hI.nodup
+        · exact hI.nodup
+      have hget := getRtmp_modRtmp _ hndB sub hxB (fun x =>
+        { x with fresh := false,
+                 waitKey := if GopCache.gopCount s.rtmpGop > 0 then false else sub.waitKey,
+                 pro := prologue s.rtmpGop,
+                 start := if (if GopCache.gopCount s.rtmpGop > 0 then false else sub.waitKey) then none
+                          else some s.pubLog.length }) (fun _ => rfl)
+      exact ⟨_, hget, (getRtmp_mem hget).1, rfl, rfl⟩
+  · have hf' : sub.fresh = false := by simpa using hf
+    have es1 : s1 = s := by simp only [s1, hf', Bool.false_eq_true, if_false]
+    rw [es1]
+    exact ⟨hI, Frame.refl s, sub, hg, hx, rfl, hf'⟩
+
+/-- the header step: a waiting subscriber is sent the metadata / sequence header being broadcast -/
+theorem rtmpOne_stepH (s1 : St) (id : Nat) (sub1 : Sub) (hdr : Option Bytes) (hI1 : Inv s1) (hst : Stored s1 id sub1) :
+    let s1h := (if sub1.waitKey && hdr.isSome then
+        (s1.writeAll .rtmp id hdr.toList).modRtmp id fun x => { x with pro := x.pro ++ hdr.toList } else s1)
+    Inv s1h ∧ Frame s1 s1h ∧ ∃ sub2, Stored s1h id sub2 ∧ sub2.waitKey = sub1.waitKey := by
+  intro s1h
+  obtain ⟨hg1, hx1, hid1, hfr1⟩ := hst
+  by_cases hc : (sub1.waitKey && hdr.isSome) = true
+  · have es : s1h = (s1.writeAll .rtmp id hdr.toList).modRtmp id fun x => { x with pro := x.pro ++ hdr.toList } := by
+      simp only [s1h, hc, if_true]
+    rw [es]
+    subst hid1
+    have hw : sub1.waitKey = true := by cases h : sub1.waitKey <;> simp_all
+    have ok := hI1.subs sub1 hx1 (by simp)
+    have hstart : sub1.start = none := by
+      cases hs : sub1.start with
+      | none => rfl
+      | some a => have := (ok.live_ hfr1 a hs).1; rw [hw] at this; cases this
+    have hrb : s1.rb sub1.id = sub1.pro.flatten := (ok.wait_ hfr1 hstart).2
+    have hIA := write_inv s1 hI1 sub1 hx1 hdr.toList
+    have hinv : Inv ((s1.writeAll .rtmp sub1.id hdr.toList).modRtmp sub1.id fun x => { x with pro := x.pro ++ hdr.toList }) := by
+      refine mod_inv _ hIA sub1 hx1 _ (fun _ => rfl) ?_ ?_ (by intro i h; simpa using h)
+      · constructor
+        · intro h; rw [hfr1] at h; cases h
+        · intro _ _
+          refine ⟨hw, ?_⟩
+          show (s1.writeAll .rtmp sub1.id hdr.toList).bytes .rtmp sub1.id = _
+          rw [bytes_writeAll]
+          have : s1.bytes .rtmp sub1.id = sub1.pro.flatten := hrb
+          simp [this]
+        · intro _ a ha; rw [hstart] at ha; cases ha
+      · intro hm _
+        exact hI1.pend hm ⟨sub1, hx1, hfr1⟩
+    refine ⟨hinv, Frame.trans (frame_write s1 sub1.id _) (frame_mod _ _ _ (fun _ => rfl)), ?_⟩
+    have hget := getRtmp_modRtmp (s1.writeAll .rtmp sub1.id hdr.toList) hI1.nodup sub1 hx1
+      (fun x => { x with pro := x.pro ++ hdr.toList }) (fun _ => rfl)
+    exact ⟨_, ⟨hget, (getRtmp_mem hget).1, rfl, hfr1⟩, rfl⟩
+  · have es : s1h = s1 := by simp only [s1h, hc, if_false, Bool.false_eq_true]
+    rw [es]
+    exact ⟨hI1, Frame.refl s1, sub1, ⟨hg1, hx1, hid1, hfr1⟩, rfl⟩
+
+/-- the key-frame step: a waiting subscriber goes live -/
+theorem rtmpOne_stepK (s1 : St) (id n : Nat) (sub1 : Sub) (hI1 : Inv s1) (hst : Stored s1 id sub1)
+    (hw : sub1.waitKey = true) (hn : n = s1.pubLog.length) :
+    Inv ((if s1.cfg.mergeSize > 0 then s1.mergeFlush else s1).modRtmp id fun x => { x with waitKey := false, start := some n }) ∧
+    Frame s1 ((if s1.cfg.mergeSize > 0 then s1.mergeFlush else s1).modRtmp id fun x => { x with waitKey := false, start := some n }) := by
+  obtain ⟨hg1, hx1, hid1, hfr1⟩ := hst
+  subst hid1
+  have ok := hI1.subs sub1 hx1 (by simp)
+  have hstart : sub1.start = none := by
+    cases hs : sub1.start with
+    | none => rfl
+    | some a => have := (ok.live_ hfr1 a hs).1; rw [hw] at this; cases this
+  have hrb : s1.rb sub1.id = sub1.pro.flatten := (ok.wait_ hfr1 hstart).2
+  have hset := settle s1 sub1 (invX_weaken s1 hI1 sub1 hx1) hx1 (Or.inr hw) sub1.pro hrb false
+  have hndC : ((if s1.cfg.mergeSize > 0 then s1.mergeFlush else s1).rtmpSubs.map (·.id)).Nodup := by
+    split
+    · rw [(flush_effect s1 hI1).1.rtmpSubs]; exact hI1.nodup
+    · exact hI1.nodup
+  have hxC : sub1 ∈ (if s1.cfg.mergeSize > 0 then s1.mergeFlush else s1).rtmpSubs := by
+    split
+    · rw [(flush_effect s1 hI1).1.rtmpSubs]; exact hx1
+    · exact hx1
+  have hcong := modRtmp_congr _ hndC sub1 hxC
+    (fun x => { x with waitKey := false, start := some n })
+    (fun y => { y with fresh := false, waitKey := false, pro := sub1.pro,
+                       start := if false then none else some s1.pubLog.length })
+    (by simp [hfr1, hn])
+  rw [hcong]
+  simp only [Bool.false_eq_true, if_false] at hset ⊢
+  have f2 : Frame s1 (if s1.cfg.mergeSize > 0 then s1.mergeFlush else s1) := by
+    split
+    · exact frame_flush s1 hI1
+    · exact Frame.refl _
+  exact ⟨hset, Frame.trans f2 (frame_mod _ _ _ (fun _ => rfl))⟩
+
+theorem rtmpOne_inv (key : Bool) (hdr : Option Bytes) (s : St) (id : Nat) (hI : Inv s) :
+    Inv (rtmpOne key hdr s id) ∧ Frame s (rtmpOne key hdr s id) := by
+  unfold rtmpOne
+  cases hg : s.getRtmp id with
+  | none => exact ⟨hI, Frame.refl s⟩
+  | some sub =>
+    obtain ⟨hx, hsid⟩ := getRtmp_mem hg
+    subst hsid
     simp only
+    obtain ⟨hI1, hF1, sub1, hst1⟩ := rtmpOne_stepA s sub hI hg
+    generalize (if sub.fresh then
+          ((if s.cfg.mergeSize > 0 then (s.writeAll .rtmp sub.id (prologue s.rtmpGop)).mergeFlush
+            else s.writeAll .rtmp sub.id (prologue s.rtmpGop)).modRtmp sub.id fun x =>
+            { x with fresh := false,
+                     waitKey := if GopCache.gopCount s.rtmpGop > 0 then false else sub.waitKey,
+                     pro := prologue s.rtmpGop,
+                     start := if (if GopCache.gopCount s.rtmpGop > 0 then false else sub.waitKey) then none
+                              else some s.pubLog.length })
+        else s) = s1 at hI1 hF1 hst1 ⊢
+    rw [hst1.get]
+    simp only
+    obtain ⟨hIh, hFh, sub2, hst2, hw2⟩ := rtmpOne_stepH s1 sub.id sub1 hdr hI1 hst1
+    generalize (if sub1.waitKey && hdr.isSome then
+        (s1.writeAll .rtmp sub.id hdr.toList).modRtmp sub.id fun x => { x with pro := x.pro ++ hdr.toList } else s1) = s1h
+      at hIh hFh hst2 ⊢
     by_cases hwk : (sub1.waitKey && key) = true
     · simp only [hwk, if_true]
-      have hw : sub1.waitKey = true := by
-        cases h : sub1.waitKey <;> simp_all
-      have ok := hI1.subs sub1 hx1 (by simp)
-      have hstart : sub1.start = none := by
-        cases hs : sub1.start with
-        | none => rfl
-        | some a => have := (ok.live_ hfr1 a hs).1; rw [hw] at this; cases this
-      have hrb : s1.rb sub1.id = sub1.pro.flatten := (ok.wait_ hfr1 hstart).2
-      have hset := settle s1 sub1 (invX_weaken s1 hI1 sub1 hx1) hx1 (Or.inr hw) sub1.pro hrb false
-      have hcfg : s1.cfg = s.cfg := hF1.cfg
-      have hpl : s1.pubLog = s.pubLog := hF1.pubLog
-      -- the update in the model equals the one `settle` speaks about, on sub1
-      have hndC : ((if s1.cfg.mergeSize > 0 then s1.mergeFlush else s1).rtmpSubs.map (·.id)).Nodup := by
-        split
-        · rw [(flush_effect s1 hI1).1.rtmpSubs]; exact hI1.nodup
-        · exact hI1.nodup
-      have hxC : sub1 ∈ (if s1.cfg.mergeSize > 0 then s1.mergeFlush else s1).rtmpSubs := by
-        split
-        · rw [(flush_effect s1 hI1).1.rtmpSubs]; exact hx1
-        · exact hx1
-      have hcong := modRtmp_congr _ hndC sub1 hxC
-        (fun x => { x with waitKey := false, start := some s.pubLog.length })
-        (fun y => { y with fresh := false, waitKey := false, pro := sub1.pro,
-                           start := if false then none else some s1.pubLog.length })
-        (by simp [hfr1, hpl])
-      rw [hid1] at hcong
-      rw [← hcfg, hcong]
-      simp only [Bool.false_eq_true, if_false] at hset ⊢
-      rw [hid1] at hset
-      have f2 : Frame s1 (if s1.cfg.mergeSize > 0 then s1.mergeFlush else s1) := by
-        split
-        · exact frame_flush s1 hI1
-        · exact Frame.refl _
-      exact ⟨hset, Frame.trans hF1 (Frame.trans f2 (frame_mod _ _ _ (fun _ => rfl)))⟩
+      have hw : sub2.waitKey = true := by rw [hw2]; cases h : sub1.waitKey <;> simp_all
+      have hcfg : s1h.cfg = s.cfg := (Frame.trans hF1 hFh).cfg
+      have hpl : s1h.pubLog = s.pubLog := (Frame.trans hF1 hFh).pubLog
+      obtain ⟨hK, fK⟩ := rtmpOne_stepK s1h sub.id s.pubLog.length sub2 hIh hst2 hw (by rw [hpl])
+      rw [hcfg] at hK fK
+      exact ⟨hK, Frame.trans (Frame.trans hF1 hFh) fK⟩
     · simp only [hwk, if_false, Bool.false_eq_true]
-      exact ⟨hI1, hF1⟩
+      exact ⟨hIh, Frame.trans hF1 hFh⟩
 
-theorem rtmpLoop_inv (key : Bool) (s : St) (hI : Inv s) : Inv (rtmpLoop key s) ∧ Frame s (rtmpLoop key s) := by
+theorem rtmpLoop_inv (key : Bool) (hdr : Option Bytes) (s : St) (hI : Inv s) :
+    Inv (rtmpLoop key hdr s) ∧ Frame s (rtmpLoop key hdr s) := by
   unfold rtmpLoop
   generalize s.rtmpSubs.map (·.id) = ids
   induction ids generalizing s with
   | nil => exact ⟨hI, Frame.refl s⟩
   | cons i is ih =>
     simp only [List.foldl_cons]
-    obtain ⟨h1, f1⟩ := rtmpOne_inv key s i hI
-    obtain ⟨h2, f2⟩ := ih (rtmpOne key s i) h1
+    obtain ⟨h1, f1⟩ := rtmpOne_inv key hdr s i hI
+    obtain ⟨h2, f2⟩ := ih (rtmpOne key hdr s i) h1
     exact ⟨h2, Frame.trans f1 f2⟩
 
 theorem slice_snoc {α} (l : List α) (m : α) (a : Nat) (h : a ≤ l.length) :
@@ -738,20 +819,20 @@ theorem frame2_writeFlvAll (sub : Sub) : ∀ (bs : List Bytes) (s : St), Frame2 
 theorem frame2_modFlv (s : St) (id : Nat) (f : Sub → Sub) : Frame2 s (s.modFlv id f) :=
   ⟨rfl, rfl, rfl, rfl, rfl, rfl, fun _ => rfl⟩
 
-theorem frame2_flvOne (key : Bool) (tag : Bytes) (s : St) (id : Nat) : Frame2 s (flvOne key tag s id) := by
+theorem frame2_flvOne (key isHdr : Bool) (tag : Bytes) (s : St) (id : Nat) : Frame2 s (flvOne key isHdr tag s id) := by
   unfold flvOne
   cases s.getFlv id with
   | none => exact Frame2.refl s
   | some sub => exact Frame2.trans (frame2_writeFlvAll sub _ s) (frame2_modFlv _ _ _)
 
-theorem frame2_flvLoop (key : Bool) (tag : Bytes) (s : St) : Frame2 s (flvLoop key tag s) := by
+theorem frame2_flvLoop (key isHdr : Bool) (tag : Bytes) (s : St) : Frame2 s (flvLoop key isHdr tag s) := by
   unfold flvLoop
   generalize s.flvSubs.map (·.id) = ids
   induction ids generalizing s with
   | nil => exact Frame2.refl s
   | cons i is ih =>
     simp only [List.foldl_cons]
-    exact Frame2.trans (frame2_flvOne key tag s i) (ih _)
+    exact Frame2.trans (frame2_flvOne key isHdr tag s i) (ih _)
 
 theorem frame2_fields {s s' : St} (h1 : s'.rtmpSubs = s.rtmpSubs) (h2 : s'.pubLog = s.pubLog) (h3 : s'.cfg = s.cfg)
     (h4 : s'.usedIds = s.usedIds) (h5 : s'.merge = s.merge) (h6 : s'.mergeFrom = s.mergeFrom) (h7 : s'.out = s.out) :
@@ -762,11 +843,11 @@ theorem broadcast_inv (s : St) (m : InMsg) (hI : Inv s) : Inv (broadcast s m) :=
   split
   · exact hI
   · simp only
-    obtain ⟨h0, _⟩ := rtmpLoop_inv (Classify.isVideoKeyNalu m.typ m.payload) s hI
+    obtain ⟨h0, _⟩ := rtmpLoop_inv (Classify.isVideoKeyNalu m.typ m.payload) (if isHeaderMsg m then some (chunksWithoutSdf m) else none) s hI
     have h2 := forward_inv _ m h0
-    have h3 := inv_of_frame2 h2 (frame2_flvLoop (Classify.isVideoKeyNalu m.typ m.payload) (tagWithoutSdf m) _)
-    have h4 : Inv (recordStage (flvLoop (Classify.isVideoKeyNalu m.typ m.payload) (tagWithoutSdf m)
-        (forward (rtmpLoop (Classify.isVideoKeyNalu m.typ m.payload) s) m)) m) := by
+    have h3 := inv_of_frame2 h2 (frame2_flvLoop (Classify.isVideoKeyNalu m.typ m.payload) (isHeaderMsg m) (tagWithoutSdf m) _)
+    have h4 : Inv (recordStage (flvLoop (Classify.isVideoKeyNalu m.typ m.payload) (isHeaderMsg m) (tagWithoutSdf m)
+        (forward (rtmpLoop (Classify.isVideoKeyNalu m.typ m.payload) (if isHeaderMsg m then some (chunksWithoutSdf m) else none) s) m)) m) := by
       unfold recordStage
       split
       · exact inv_of_frame2 h3 (frame2_writeAll _ .record _ [tagWithoutSdf m] (by simp))
@@ -986,10 +1067,10 @@ theorem broadcast_cfg_pub (s : St) (m : InMsg) (hI : Inv s) :
   split
   · exact ⟨rfl, rfl⟩
   · simp only
-    obtain ⟨h0, f0⟩ := rtmpLoop_inv (Classify.isVideoKeyNalu m.typ m.payload) s hI
-    obtain ⟨fp, fc, _⟩ := forward_frame (rtmpLoop (Classify.isVideoKeyNalu m.typ m.payload) s) m h0
-    have f2 := frame2_flvLoop (Classify.isVideoKeyNalu m.typ m.payload) (tagWithoutSdf m)
-      (forward (rtmpLoop (Classify.isVideoKeyNalu m.typ m.payload) s) m)
+    obtain ⟨h0, f0⟩ := rtmpLoop_inv (Classify.isVideoKeyNalu m.typ m.payload) (if isHeaderMsg m then some (chunksWithoutSdf m) else none) s hI
+    obtain ⟨fp, fc, _⟩ := forward_frame (rtmpLoop (Classify.isVideoKeyNalu m.typ m.payload) (if isHeaderMsg m then some (chunksWithoutSdf m) else none) s) m h0
+    have f2 := frame2_flvLoop (Classify.isVideoKeyNalu m.typ m.payload) (isHeaderMsg m) (tagWithoutSdf m)
+      (forward (rtmpLoop (Classify.isVideoKeyNalu m.typ m.payload) (if isHeaderMsg m then some (chunksWithoutSdf m) else none) s) m)
     constructor
     · rw [(stage_cfg _ m).2.2.2, (stage_cfg _ m).2.2.1, (stage_cfg _ m).2.1, (stage_cfg _ m).1, f2.cfg, fc, f0.cfg]
     · rw [(stage_pubLog _ m).2.2.2, (stage_pubLog _ m).2.2.1, (stage_pubLog _ m).2.1, (stage_pubLog _ m).1, f2.pubLog, fp, f0.pubLog]
